@@ -16,6 +16,12 @@ from . import seam
 HARNESS_TIMEOUT = 120.0
 
 
+def _fp_noop(kind, flag):
+    """numpy floating point error handler of the simulated processes: a distinctive, non-default error state
+    ('call' with a no-op) so that a library call that changes the state and does not restore it is noticed"""
+    return None
+
+
 class Decisions:
     """Source of scheduling decisions: fresh (seeded PRNG) or replay (recorded list). Always records."""
 
@@ -97,7 +103,8 @@ def run(client_steps: dict[int, list], exec_fn, ready_fn, on_entry, dec: Decisio
 
     def client_main(cl: Client):
         seam.set_ctx(cl.ctx)
-        np.seterr(all="ignore")
+        np.seterrcall(_fp_noop)
+        np.seterr(all="call")
         try:
             cl.ev.wait()
             cl.ev.clear()
